@@ -101,8 +101,8 @@ func (d bothDest) Seek(off int64, whence int) (int64, error)     { return d.c.se
 
 var kindNames = []string{"KPlain", "KWriterAt", "KSeeker", "KBoth"}
 
-func newDest(kind int, failAt, accept int) (io.Writer, *destCore) {
-	c := &destCore{failAt: failAt, accept: accept}
+func newDest(kind int, failAt, accept int, pre []byte) (io.Writer, *destCore) {
+	c := &destCore{failAt: failAt, accept: accept, data: append([]byte(nil), pre...), cur: len(pre)}
 	switch kind {
 	case 0:
 		return plainDest{c}, c
@@ -124,7 +124,12 @@ type runResult struct {
 
 // runEncode: batch (chain of Encode calls on one encoder) or stream (WriteMessage*, SequenceCompleted per file); stops at the first error.
 func runEncode(ec encCfg, files []encFile, kind int, bufSize int, stream bool, failAt, accept int, presetDS []uint32) (res runResult) {
-	w, core := newDest(kind, failAt, accept)
+	return runEncodePre(ec, files, kind, bufSize, stream, failAt, accept, presetDS, nil)
+}
+
+// runEncodePre: as runEncode, on a destination that already holds pre (cursor at its end), with a fresh encoder.
+func runEncodePre(ec encCfg, files []encFile, kind int, bufSize int, stream bool, failAt, accept int, presetDS []uint32, pre []byte) (res runResult) {
+	w, core := newDest(kind, failAt, accept, pre)
 	defer func() {
 		if p := recover(); p != nil {
 			res.panicked = p
@@ -213,12 +218,65 @@ func (r *rng) genWritable() (encCfg, []encFile, []uint32) {
 }
 
 func emitWriterCase(ec encCfg, files []encFile, kind, bufSize int, stream bool, failAt, accept int, preset bool, res runResult) {
+	emitWriterCasePre(ec, files, kind, bufSize, stream, failAt, accept, preset, res, nil)
+}
+
+func emitWriterCasePre(ec encCfg, files []encFile, kind, bufSize int, stream bool, failAt, accept int, preset bool, res runResult, pre []byte) {
 	fault := "None"
 	if failAt >= 0 {
 		fault = fmt.Sprintf("(Some (mkfault %d %d))", failAt, accept)
 	}
-	emit("CASE", fmt.Sprintf("(%s, %s, %s, %s, %s, %s, %s, %s, %s)", ec.coq(), coqEFiles(files), kindNames[kind], coqZ(int64(bufSize)), coqBool(stream), fault, coqBool(preset),
-		coqBools(res.errs), coqBytes(res.data)))
+	emit("CASE", fmt.Sprintf("(%s, %s, %s, %s, %s, %s, %s, %s, %s, %s)", ec.coq(), coqEFiles(files), kindNames[kind], coqZ(int64(bufSize)), coqBool(stream), fault, coqBool(preset),
+		coqBytes(pre), coqBools(res.errs), coqBytes(res.data)))
+}
+
+// genWritableChain: like genWritable, with longer chains, 12-byte headers and (for compressed timestamp headers) timestamps
+// that continue from one file of the chain into the next within the 32 s window.
+func (r *rng) genWritableChain() (encCfg, []encFile, []uint32) {
+	for {
+		ec, files := r.genChain(true)
+		want := 1 + r.intn(3)
+		for len(files) < want {
+			_, more := r.genChain(true)
+			files = append(files, more[0])
+		}
+		files = files[:want]
+		hs := byte(14)
+		if r.chance(1, 4) {
+			hs = 12
+		}
+		ec.headerSize = hs
+		continueTs := r.chance(1, 2)
+		ts := uint32(1000000000 + r.intn(100000))
+		for i := range files {
+			files[i].proto, files[i].profile, files[i].hsize = 0, 0, hs
+			if len(files[i].msgs) > 5 {
+				files[i].msgs = files[i].msgs[:5]
+			}
+			if continueTs {
+				for mi := range files[i].msgs {
+					for fi := range files[i].msgs[mi].Fields {
+						f := &files[i].msgs[mi].Fields[fi]
+						if f.Num == proto.FieldNumTimestamp && f.Value.Type() == proto.TypeUint32 {
+							ts += uint32(r.intn(9))
+							f.Value = proto.Uint32(ts)
+						}
+					}
+				}
+			}
+		}
+		_, wb, err := encodeChain(ec, files)
+		if err != nil {
+			continue
+		}
+		var ds []uint32
+		for i := range wb {
+			var a, bb, c, d, e, f uint32
+			fmt.Sscanf(wb[i], "((%d, %d, %d, %d, %d), %d)", &a, &bb, &c, &d, &e, &f)
+			ds = append(ds, d)
+		}
+		return ec, files, ds
+	}
 }
 
 // c09: the destination content is the same for every writer kind, buffer size, batch/stream and for chains.
@@ -235,7 +293,9 @@ func c09(args []string) {
 	}
 	bufSizes := []int{-1, 0, 1, 7, 64, 4096}
 	for i := 0; i < n; i++ {
-		ec, files, ds := r.genWritable()
+		ec, files, ds := r.genWritableChain()
+		stat(fmt.Sprintf("chain_len_%d", len(files)), 1)
+		stat(fmt.Sprintf("header_size_%d", files[0].hsize), 1)
 		ref := runEncode(ec, files, 0, 4096, false, -1, 0, nil)
 		if ref.panicked != nil || anyTrue(ref.errs) {
 			emitJSON("FAIL", "", map[string]any{"kind": "reference-run-failed", "errs": ref.errs, "panic": fmt.Sprint(ref.panicked)})
@@ -245,7 +305,7 @@ func c09(args []string) {
 		for kind := 0; kind < 4; kind++ {
 			for _, bs := range bufSizes {
 				for _, stream := range []bool{false, true} {
-					if stream && kind == 0 {
+					if stream && (kind == 0 || files[0].hsize != 14) { // a stream encoder writes its own 14-byte header
 						continue
 					}
 					for _, preset := range []bool{false, true} {
@@ -265,6 +325,35 @@ func c09(args []string) {
 						if casesLeft > 0 && r.chance(1, 6) {
 							emitWriterCase(ec, files, kind, bs, stream, -1, 0, preset, res)
 							casesLeft--
+						}
+					}
+				}
+			}
+		}
+		// destination that already holds bytes (an earlier file, or anything), cursor at its end, fresh encoder: plain, seekable and
+		// seekable+write-at destinations must append exactly the same bytes and leave what was there untouched
+		if i%2 == 0 {
+			pre := append([]byte(nil), ref.data...)
+			if r.chance(1, 3) {
+				pre = r.bytes(1 + r.intn(40))
+			}
+			want := append(append([]byte(nil), pre...), ref.data...)
+			preCases := 2
+			for _, kind := range []int{0, 2, 3} {
+				for _, bs := range []int{0, 1, 64, 4096} {
+					for _, stream := range []bool{false, true} {
+						if stream && (kind == 0 || files[0].hsize != 14) {
+							continue
+						}
+						res := runEncodePre(ec, files, kind, bs, stream, -1, 0, nil, pre)
+						stat("oracle_configurations_preexisting", 1)
+						if res.panicked != nil || anyTrue(res.errs) || !bytes.Equal(res.data, want) {
+							emitJSON("FAIL", "", map[string]any{"kind": "content-depends-on-writer (destination with earlier content)", "writer": kindNames[kind], "bufsize": bs, "stream": stream,
+								"errs": res.errs, "panic": fmt.Sprint(res.panicked), "cfg": ec.coq(), "input": coqEFiles(files), "pre": fmt.Sprintf("%x", pre), "got": fmt.Sprintf("%x", res.data), "want": fmt.Sprintf("%x", want), "ops": res.log})
+						}
+						if preCases > 0 && r.chance(1, 5) {
+							emitWriterCasePre(ec, files, kind, bs, stream, -1, 0, false, res, pre)
+							preCases--
 						}
 					}
 				}
